@@ -40,6 +40,7 @@ def gen_cases(tier, seed):
                                       "rot_seed": int(rng.integers(100)) if rng.integers(2) else None},
                           "smat": sm, "pmat": ["P", "centring"][rng.integers(2)], "method": ["wang", "gonze"][k % 2], "full": bool(rng.integers(2)),
                           "factor": [14.399652, 2.0, 1.0, 14.399652 / 0.529177 / 13.6][rng.integers(4)], "seed": int(rng.integers(10 ** 6)),
+                          "_threads": [1, 2, 3, 5, 7, 16][int(np.random.default_rng([seed, k, len(cases)]).integers(6))],  # (own generator: the case stream stays what it was)
                           "_cost": (nu * setup.det3(sm)) * (5 if k % 2 else 1)})
     return cases
 
@@ -141,6 +142,25 @@ def run_case(c):
         obs["n_gamma_dir_qpoints"] = obs.get("n_gamma_dir_qpoints", 0) + 1
         if not e <= tolz:
             bad("gamma_limit_run_qpoints", "run_qpoints(nac_q_direction): D-D0-formula = %.3e (tol %.3e)" % (e, tolz))
+    # a request of several q-points with the exact zone centre somewhere in the middle and NO direction: no non-analytical term there (D = D0),
+    # and every other entry equals the single-q answer - whatever came before it in the list and however the list is split among threads
+    qb = [rng.uniform(-0.5, 0.5, 3) for _ in range(int(rng.integers(5, 14)))]
+    for pos_ in sorted(set(rng.integers(1, len(qb), 3).tolist())):
+        qb.insert(pos_, np.zeros(3))
+    ph.run_qpoints(relayout(np.array(qb), lrng)[0], with_dynamical_matrices=True)
+    Db = np.array(ph.get_qpoints_dict()["dynamical_matrices"])
+    for k_, q_ in enumerate(qb):
+        obs["n_batch_without_direction"] = obs.get("n_batch_without_direction", 0) + 1
+        if not np.any(q_):
+            e = float(np.abs(Db[k_] - D0).max())
+            if not e <= max(1e-12 * np.abs(D0).max(), 1e-13 * dds):
+                bad("gamma_without_direction", "request of %d q-points without a direction: entry %d (the exact zone centre) differs from the uncorrected matrix by %.3e (dipole-dipole scale %.3e)" % (
+                    len(qb), k_, e, dds), entry=k_, n_qpoints=len(qb))
+        else:
+            dm.run(q_)
+            e = float(np.abs(Db[k_] - np.array(dm.dynamical_matrix)).max())
+            if not e <= 1e-10 * max(fscale, dds):
+                bad("batch_vs_single", "request of %d q-points: entry %d differs from the single-q answer by %.3e" % (len(qb), k_, e), entry=k_, n_qpoints=len(qb))
     # commensurate q != 0
     M = np.rint(sc.cell @ np.linalg.inv(pr.cell)).astype(int)
     comm = [q for q in commensurate_q(M) if np.abs(q - np.rint(q)).max() > 1e-8]
